@@ -37,18 +37,18 @@ func (k ObjKind) String() string {
 
 // Obj is an abstract object.
 type Obj struct {
-	ID    int
-	Kind  ObjKind
-	Blob  bool // interior is opaque: every path collapses onto the object, and it points to itself
-	Label string
-	Pos   token.Pos
-	Fn    *ssa.Function // function containing the allocation site (nil for globals / externals)
-	Site  ssa.Value     // allocation instruction (may be nil)
-	Glob  *ssa.Global
-	Type  types.Type
-	Tag   string // free client tag (e.g. entry-point name for externals)
-	Ctx   Ctx    // context the allocation site was analysed in
-	Foreign bool // opaque result of an un-entered (standard library) callee
+	ID      int
+	Kind    ObjKind
+	Blob    bool // interior is opaque: every path collapses onto the object, and it points to itself
+	Label   string
+	Pos     token.Pos
+	Fn      *ssa.Function // function containing the allocation site (nil for globals / externals)
+	Site    ssa.Value     // allocation instruction (may be nil)
+	Glob    *ssa.Global
+	Type    types.Type
+	Tag     string // free client tag (e.g. entry-point name for externals)
+	Ctx     Ctx    // context the allocation site was analysed in
+	Foreign bool   // opaque result of an un-entered (standard library) callee
 }
 
 // Loc is an addressable location: object + access path.
@@ -134,7 +134,7 @@ type Root struct {
 type Config struct {
 	CG        *callgraph.Graph
 	Roots     []Root
-	Enter     func(fn *ssa.Function) bool // analyse the body of fn?
+	Enter     func(fn *ssa.Function) bool                               // analyse the body of fn?
 	SkipEdge  func(site ssa.CallInstruction, callee *ssa.Function) bool // ignore this call-graph edge (handled by ExtInvoke)
 	ExtInvoke func(a *Analysis, ctx Ctx, site ssa.CallInstruction, fn *ssa.Function, recv *Obj, method string) bool
 }
